@@ -387,6 +387,22 @@ func errString(err error) string {
 	return fmt.Sprint(err)
 }
 
+// c05Small is rt.Small with destinations whose text and url.Parse(·).String() differ or that carry parts the
+// URL *struct* holds behind pointers (the commands compare and de-duplicate destinations by their String()):
+// credentials, an upper-case scheme (normalised to lower case: "HTTP://a:1/" and "http://a:1/" are one
+// target, and a `route del svc src HTTP://a:1/` removes what `http://a:1/` added), a fragment, an escaped path.
+// Options include `register` (read by ParseAliases) with and without a value.
+var c05Small = func() rt.Universe {
+	u := rt.Small
+	u.Dsts = append(append([]string{}, rt.Small.Dsts...),
+		"http://u:pw@a:1/", "http://u@a:1/", "HTTP://a:1/", "https://u:pw@c:3/x", "http://b:2/#top", "http://b:2/a%2Fb", "Http://u:pw@a:1/")
+	u.Opts = append(append([][]string{}, rt.Small.Opts...),
+		[]string{"register", "alias-a"}, []string{"register", ""}, []string{"redirect", "399"}, []string{"redirect", "200"},
+		[]string{"redirect", "+302"}, []string{"redirect", "3x1"}, []string{"host", "www.foo.com"}, []string{"pxyproto", "true"},
+		[]string{"tlsskipverify", "TRUE"}, []string{"strip", ""})
+	return u
+}()
+
 // genScript draws a command script like rt.Universe.GenScript and, in addition, makes sequences frequent in
 // which a command is applied, undone or altered, and applied again with the very same definition: verbatim
 // re-adds, `del` aimed exactly at an earlier add followed by the same add, `weight` on an earlier add followed
